@@ -54,6 +54,18 @@ Example c11_seven_rows_2_2_5 :
   [[PRow 0; PRow 1]; [PRow 2; PRow 3]; [PRow 4; PRow 5; PRow 6]].
 Proof. vm_compute. reflexivity. Qed.
 
+(* re-executing a statement discards its cursor the moment the execution is dispatched - before the application is asked,
+   so whatever it answers (a result with or without a new cursor, no result, an error) and whether or not the cursor flag is
+   set: until a new cursor is installed a fetch on the statement is refused *)
+Theorem c11_execute_discards_the_cursor : forall s id cur v, find_stmt id (stmts s) = Some v ->
+  find_stmt id (stmts (fst (handler BATCH s (CExecute id cur)))) = Some (mk_stmt None 0) /\
+  forall s' n z j, find_stmt id (stmts s') = Some (mk_stmt None j) -> snd (handler BATCH s' (CFetch id n z)) = [MRaise XOther None].
+Proof.
+  intros s id cur v H. split.
+  - cbn [handler]. rewrite H. cbn [fst stmts set_stmts]. rewrite find_put, N.eqb_refl. reflexivity.
+  - intros s' n z j H'. cbn [handler]. rewrite H'. reflexivity.
+Qed.
+
 (* ---- over whole lock-step conversations (Proofs/CursorProofs.v, on the connection machine Model/Conn.v) ------------------- *)
 
 (* One round of a command whose handler is a straight plan (no application call): through every suspension - rows becoming
